@@ -60,6 +60,22 @@ pub struct Monitors {
     pub last_adv_wnd: u32,
     pub prev_adv_wnd: u32,
     pub fin_from_peer_seen: bool,
+    // ---- retransmission discipline (C06) ----
+    /// consecutive duplicate ACKs (RFC 5681 definition) seen from a peer that never sent a SACK
+    pub dup_acks: u8,
+    pub last_peer_ack: Option<(u16, u32)>,
+    pub peer_used_sack: bool,
+    /// consecutive SACK-bearing ACKs at the same cumulative ack
+    pub sack_dups: u8,
+    pub cum_acked_bytes: u64,
+    /// RTO value in force and the instant of the last timer-driven retransmission without a new ACK since
+    pub last_rto_fire: Option<(u64, u64)>,
+    pub reset_seen: bool,
+    pub fin_acked_by_peer: bool,
+    // ---- handshake (C17 R1) ----
+    pub synack_times: Vec<u64>,
+    pub established_seen: bool,
+    pub first_data_ever: bool,
 }
 
 impl Monitors {
@@ -85,6 +101,17 @@ impl Monitors {
             last_adv_wnd: cfg.rx_buf as u32,
             prev_adv_wnd: cfg.rx_buf as u32,
             fin_from_peer_seen: false,
+            dup_acks: 0,
+            last_peer_ack: None,
+            peer_used_sack: false,
+            sack_dups: 0,
+            cum_acked_bytes: 0,
+            last_rto_fire: None,
+            reset_seen: false,
+            fin_acked_by_peer: false,
+            synack_times: vec![],
+            established_seen: !cfg.incoming,
+            first_data_ever: false,
         }
     }
 
@@ -125,6 +152,20 @@ impl Monitors {
         out.push(self.unacked_inorder_bytes as u64);
         out.push(self.last_adv_wnd as u64);
         out.push(self.fin_from_peer_seen as u64);
+        out.push(self.dup_acks as u64 | (self.sack_dups as u64) << 8 | (self.peer_used_sack as u64) << 16 | (self.reset_seen as u64) << 17 | (self.fin_acked_by_peer as u64) << 18 | (self.established_seen as u64) << 19);
+        out.push(self.last_peer_ack.map(|x| x.0 as u64 | (x.1 as u64) << 16).unwrap_or(u64::MAX));
+        out.push(self.cum_acked_bytes);
+        match self.last_rto_fire {
+            Some((rto, t)) => {
+                out.push(rto);
+                out.push(now.saturating_sub(t));
+            }
+            None => out.push(u64::MAX),
+        }
+        out.push(self.synack_times.len() as u64);
+        if let Some(t) = self.synack_times.last() {
+            out.push(now.saturating_sub(*t));
+        }
     }
 
     /// Called after every transition (and once after the spawn poll, with `act` = None).
@@ -135,6 +176,10 @@ impl Monitors {
         self.peer_side_updates(&rec, w);
         self.tx_wire(&rec, w, act, &mut v);
         self.rx_wire(&rec, w, act, &mut v);
+        self.rtx(&rec, w, act, &mut v);
+        self.fsm(&rec, w, act, &mut v);
+        self.nagle_and_buffers(&rec, w, act, &mut v);
+        self.wakeups(&rec, w, act, &mut v);
         self.all_findings.extend(v.iter().cloned());
         v
     }
@@ -194,6 +239,9 @@ impl Monitors {
 
     fn peer_side_updates(&mut self, rec: &StepRecord, w: &World) {
         for (h, _, _) in &rec.peer_sent {
+            if h.ptype == 3 {
+                self.reset_seen = true;
+            }
             if h.ptype == 4 || h.ptype == 3 {
                 continue;
             }
@@ -210,11 +258,21 @@ impl Monitors {
                 continue; // acknowledges data never sent: hostile, proves nothing
             }
             let mut newly = 0u64;
+            let mut cum = 0u64;
             for (s, t) in self.tx.iter_mut() {
+                if sdist(h.ack, *s) >= 0 {
+                    cum = cum.max(t.off + t.len as u64);
+                }
                 if !t.acked && sdist(h.ack, *s) >= 0 {
                     t.acked = true;
                     newly += t.len as u64;
                     self.largest_payload_acked = self.largest_payload_acked.max(t.len);
+                }
+            }
+            self.cum_acked_bytes = self.cum_acked_bytes.max(cum);
+            if let Some(fs) = self.fin_seq {
+                if sdist(h.ack, fs) >= 0 {
+                    self.fin_acked_by_peer = true;
                 }
             }
             if let Some((m, n)) = &h.sack {
@@ -368,10 +426,21 @@ impl Monitors {
                 if self.episode.is_none() {
                     let outstanding: usize = self.tx.values().filter(|t| !t.acked).map(|t| t.len).sum();
                     if outstanding as u64 > self.peer_last_wnd as u64 {
+                        // the retransmission timer fired with nothing in flight and pushed out a segment that
+                        // had been cut but never sent (the implementation's accidental window probe)
+                        let by_rto_timer = matches!(_act, Some(Act::Tick) | Some(Act::Wait(_)))
+                            && rec.peer_sent.is_empty()
+                            && rec.obs_before.as_ref().map(|o| o.flight_size == 0 && o.timers[0].is_some() && o.tx_segments > 0).unwrap_or(false);
                         v.push(f(
                             "C05",
                             "peer-window",
-                            if self.peer_last_wnd == 0 { "window/new-data-into-zero-window" } else { "window/outstanding-exceeds-peer-window" },
+                            if by_rto_timer {
+                                "window/never-sent-segment-pushed-by-rto-timer"
+                            } else if self.peer_last_wnd == 0 {
+                                "window/new-data-into-zero-window"
+                            } else {
+                                "window/outstanding-exceeds-peer-window"
+                            },
                             format!("first transmission of sequence number {} puts {} bytes outstanding, the peer's last advertised window is {}", seq, outstanding, self.peer_last_wnd),
                         ));
                     }
@@ -390,16 +459,6 @@ impl Monitors {
                 }
                 if let Some(n) = self.after_rto.as_mut() {
                     *n += 1;
-                }
-            }
-            if let Some(n) = self.after_rto {
-                if n > 1 {
-                    v.push(f(
-                        "C05",
-                        "rto-single-segment",
-                        "window/more-than-one-segment-after-rto",
-                        format!("after a retransmission timeout {} segments were sent before any new data was acknowledged", n),
-                    ));
                 }
             }
         }
@@ -496,7 +555,17 @@ impl Monitors {
                     ));
                 }
             }
-            // ACK obligations discharged by this packet
+            // ACK obligations discharged by this packet - in time?
+            for (i, d) in &self.ack_due {
+                if (*i as i64) <= ai && e.t_us > *d {
+                    v.push(f(
+                        "C07",
+                        "ack-timeliness",
+                        "ack/delayed-ack-deadline-missed",
+                        format!("peer packet {} was accepted in order and had to be acknowledged by {} us; the ACK covering it went out at {} us", i, d, e.t_us),
+                    ));
+                }
+            }
             self.ack_due.retain(|(i, _)| *i as i64 > ai);
             if self.ack_due.is_empty() {
                 self.unacked_inorder_bytes = 0;
@@ -603,7 +672,12 @@ impl Monitors {
                     _ => {}
                 }
             }
-            // window re-opens from zero as a result of a read
+        }
+        // window re-opens from zero as a result of a read: also while only our own direction is closed
+        // (the peer may still send), not once the peer's FIN was received
+        let receiving = |s: &str| s == "established" || s == "fin-wait-1" || s == "fin-wait-2";
+        let can_receive = rec.obs_after.as_ref().map(|o| receiving(o.state)).unwrap_or(false) && rec.obs_before.as_ref().map(|o| receiving(o.state)).unwrap_or(false);
+        if can_receive && w.reader.is_some() && transport_ok && !deliver2 && !self.fin_from_peer_seen {
             if let (Some(Act::Read(_)), Some(o)) = (act, &rec.obs_after) {
                 let before_wnd = self.last_adv_wnd_before(rec);
                 let free = w.cfg.rx_buf.saturating_sub(o.rx_queue_bytes + o.rx_ooq_bytes);
@@ -647,6 +721,476 @@ impl Monitors {
                     "silence",
                     "silence/idle-endpoint-emits-on-spurious-poll",
                     format!("established, nothing to acknowledge and nothing to send, yet a poll emitted {} datagram(s): first {} ack={} wnd={}", rec.emitted.len(), crate::duo::debug::type_name(rec.emitted[0].hdr.ptype), rec.emitted[0].hdr.ack, rec.emitted[0].hdr.wnd),
+                ));
+            }
+        }
+    }
+
+    // ------------------------------------------------------------------------------------------
+    // C06: retransmission timing discipline
+    // ------------------------------------------------------------------------------------------
+    fn rtx(&mut self, rec: &StepRecord, w: &World, act: Option<&Act>, v: &mut Vec<Finding>) {
+        let (Some(ob), oa) = (&rec.obs_before, &rec.obs_after) else { return };
+        let clamp = |us: u64| us.clamp(200_000, 60_000_000);
+        // unacknowledged data (or FIN) on the wire before this step
+        let first_unacked = self.tx_order.iter().find(|s| !self.tx[*s].acked).copied();
+        // a segment is never transmitted more often than 1 + max_retransmissions
+        for (s, t) in &self.tx {
+            if t.count > w.cfg.max_retx + 1 {
+                v.push(f("C06", "retry-cap", "rtx/retransmitted-beyond-the-cap", format!("sequence number {} was transmitted {} times, max_retransmissions is {}", s, t.count, w.cfg.max_retx)));
+            }
+        }
+        // duplicate ACK bookkeeping from the packets the peer sent in this step
+        let mut fast_due = false;
+        for (h, plen, _) in &rec.peer_sent {
+            if h.ptype != 2 || *plen > 0 {
+                if h.ptype == 0 || h.ptype == 1 {
+                    self.dup_acks = 0;
+                    self.sack_dups = 0;
+                }
+                continue;
+            }
+            if h.sack.is_some() {
+                self.peer_used_sack = true;
+            }
+            let outstanding_before = first_unacked.is_some();
+            let same = self.last_peer_ack.map(|(a, wnd)| a == h.ack && wnd == h.wnd).unwrap_or(false);
+            let in_range = w.ep_hi_seq.map(|hi| sdist(hi, h.ack) > 0).unwrap_or(false) && first_unacked.map(|fu| h.ack == fu.wrapping_sub(1)).unwrap_or(false);
+            if outstanding_before && in_range {
+                match &h.sack {
+                    None => {
+                        if !self.peer_used_sack && same {
+                            self.dup_acks = self.dup_acks.saturating_add(1);
+                            if self.dup_acks == 3 {
+                                fast_due = true;
+                            }
+                        } else if !same {
+                            self.dup_acks = 0;
+                        }
+                        self.sack_dups = 0;
+                    }
+                    Some((m, n)) => {
+                        let bits: u32 = m[..(*n).min(8)].iter().map(|b| b.count_ones()).sum();
+                        // only SACK blocks that name segments really sent count as evidence
+                        let hi = w.ep_hi_seq.unwrap_or(h.ack);
+                        let mut valid_bits = 0;
+                        for i in 0..(*n * 8).min(64) {
+                            if m[i / 8] & (1 << (i % 8)) != 0 && sdist(hi, h.ack.wrapping_add(2 + i as u16)) >= 0 {
+                                valid_bits += 1;
+                            }
+                        }
+                        let _ = bits;
+                        if valid_bits >= 3 {
+                            if self.sack_dups < 3 {
+                                fast_due = true;
+                            }
+                            self.sack_dups = 3;
+                        } else if valid_bits > 0 {
+                            self.sack_dups = self.sack_dups.saturating_add(1);
+                            if self.sack_dups == 3 {
+                                fast_due = true;
+                            }
+                        }
+                    }
+                }
+            } else {
+                self.dup_acks = 0;
+                self.sack_dups = 0;
+            }
+            self.last_peer_ack = Some((h.ack, h.wnd));
+        }
+        if matches!(act, Some(Act::Deliver2(..))) {
+            fast_due = false; // aggregated processing of a burst: the per-packet rule is judged on single deliveries
+        }
+        if fast_due {
+            // unless a timeout recovery is in progress (or a fast recovery is already running)
+            let timeout_recovery = ob.rto_retransmissions > 0 || ob.recovery_phase == 2;
+            let already_recovering = ob.recovery_phase == 1;
+            if !timeout_recovery && !already_recovering && rec.rejected.is_empty() && w.done.is_none() {
+                let fu = first_unacked.unwrap();
+                let resent = rec.emitted.iter().any(|e| e.hdr.ptype == 0 && e.hdr.seq == fu);
+                if !resent && rec.clock_advanced_us == 0 {
+                    v.push(f(
+                        "C06",
+                        "fast-retransmit",
+                        "rtx/no-fast-retransmit-on-third-duplicate",
+                        format!("the third duplicate ACK / SACK evidence for ack_nr {} arrived, but sequence number {} was not retransmitted in the same instant", fu.wrapping_sub(1), fu),
+                    ));
+                }
+            }
+        }
+        // the retransmission timer: armed whenever something sent is unacknowledged
+        if let Some(oa) = oa {
+            let data_outstanding = self.tx.values().any(|t| !t.acked);
+            let fin_outstanding = self.fin_seq.is_some() && !self.fin_acked_by_peer && !self.reset_seen;
+            let alive = w.done.is_none();
+            let closing_by_timer = oa.state != "established"; // teardown is bounded by the final-chance / inactivity timer instead
+            if alive && (data_outstanding || (fin_outstanding && !closing_by_timer)) && oa.timers[0].is_none() && rec.rejected.is_empty() && !matches!(act, Some(Act::TransportPendingOnce)) {
+                let probe_pending = self.tx.values().any(|t| !t.acked && t.len > self.largest_payload_acked.max(self.protocol_min_payload()));
+                v.push(f(
+                    "C06",
+                    "rto-timer",
+                    if probe_pending { "rtx/timer-off-with-unacked-data-behind-probe" } else { "rtx/timer-off-with-unacked-data" },
+                    format!("unacknowledged data is on the wire (first unacked sequence number {:?}) but the retransmission timer is not armed", first_unacked),
+                ));
+            }
+            // a timer-driven step at the retransmission deadline
+            let due_now = ob.timers[0].map(|d| d.as_micros() as u64 == rec.clock_advanced_us).unwrap_or(false) && matches!(act, Some(Act::Tick) | Some(Act::Wait(_))) && rec.clock_advanced_us > 0;
+            if due_now && rec.peer_sent.is_empty() && w.done.is_none() && rec.rejected.is_empty() {
+                if let Some(fu) = first_unacked {
+                    let seg = &self.tx[&fu];
+                    let is_probe = seg.len > self.largest_payload_acked.max(self.protocol_min_payload()) && self.tx_order.last() == Some(&fu);
+                    let resent = rec.emitted.iter().any(|e| e.hdr.ptype == 0 && e.hdr.seq == fu);
+                    if !resent && !is_probe {
+                        let behind_probe = self.tx.values().any(|t| !t.acked && t.len > self.largest_payload_acked.max(self.protocol_min_payload()));
+                        v.push(f(
+                            "C06",
+                            "rto-timer",
+                            if behind_probe { "rtx/timeout-did-not-retransmit-segment-behind-probe" } else { "rtx/timeout-did-not-retransmit-first-unacked" },
+                            format!("the retransmission timeout expired at {} us but the first unacknowledged sequence number {} was not put on the wire again", rec.t_us, fu),
+                        ));
+                    }
+                    if resent && !is_probe {
+                        // back-off: doubled (within 200 ms .. 60 s) unless new data was acknowledged in between
+                        let want = clamp(ob.rto.as_micros() as u64 * 2);
+                        let got = oa.rto.as_micros() as u64;
+                        if got != want {
+                            v.push(f("C06", "backoff", "rtx/rto-not-doubled-after-timeout", format!("RTO was {} us when the timer fired; after the timeout it is {} us, expected {} us", ob.rto.as_micros(), got, want)));
+                        }
+                        if oa.timers[0].map(|d| d.as_micros() as u64) != Some(got) {
+                            v.push(f("C06", "backoff", "rtx/timer-not-restarted-with-backed-off-rto", format!("after the timeout the retransmission timer shows {:?}, the backed-off RTO is {} us", oa.timers[0], got)));
+                        }
+                        // each timeout allows exactly one segment until new data is acknowledged
+                        let sent_now = rec.emitted.iter().filter(|e| e.hdr.ptype == 0).count();
+                        self.after_rto = Some(sent_now);
+                    }
+                }
+            }
+            if let Some(n) = self.after_rto {
+                if n > 1 {
+                    v.push(f(
+                        "C05",
+                        "rto-single-segment",
+                        "window/more-than-one-segment-after-rto",
+                        format!("after a retransmission timeout {} segments were sent before any new data was acknowledged", n),
+                    ));
+                }
+            }
+            // a retransmission that nothing justifies: no timer expiry, no duplicate-ACK / SACK evidence, no recovery
+            for e in rec.emitted.iter().filter(|e| e.hdr.ptype == 0) {
+                if let Some(t) = self.tx.get(&e.hdr.seq) {
+                    if t.count > 1 && t.last_t == e.t_us {
+                        let timer_step = due_now;
+                        let evidence = self.dup_acks >= 3 || self.sack_dups >= 1 || ob.recovery_phase != 0 || oa.recovery_phase != 0 || ob.rto_retransmissions > 0 || self.peer_used_sack;
+                        let after_probe = !rec.rejected.is_empty() || ob.max_ss != oa.max_ss;
+                        let rewound = self.loss_seen && self.episode.is_some();
+                        if !timer_step && !evidence && !after_probe && !rewound && !matches!(act, Some(Act::Deliver2(..))) {
+                            v.push(f(
+                                "C06",
+                                "rto-timer",
+                                "rtx/retransmitted-before-timeout-without-evidence",
+                                format!("sequence number {} was retransmitted at {} us: no timeout had expired and no duplicate-ACK/SACK evidence had arrived", e.hdr.seq, e.t_us),
+                            ));
+                        }
+                    }
+                }
+            }
+        }
+    }
+
+    // ------------------------------------------------------------------------------------------
+    // C17: handshake and teardown on the wire
+    // ------------------------------------------------------------------------------------------
+    fn fsm(&mut self, rec: &StepRecord, w: &World, act: Option<&Act>, v: &mut Vec<Finding>) {
+        let state_after = rec.obs_after.as_ref().map(|o| o.state).unwrap_or("gone");
+        let state_before = rec.obs_before.as_ref().map(|o| o.state).unwrap_or("gone");
+        // R1: the accepted connection's SYN-ACK
+        if w.cfg.incoming && !self.established_seen {
+            for e in &rec.emitted {
+                let is_synack = e.hdr.ptype == 2 && e.hdr.ack == w.cfg.peer_isn && e.hdr.seq == w.cfg.our_isn;
+                if is_synack {
+                    if let Some(last) = self.synack_times.last() {
+                        if e.t_us != *last + 200_000 {
+                            v.push(f("C17", "handshake", "synack/not-on-the-200ms-timer", format!("SYN-ACK repeated at {} us, previous one at {} us", e.t_us, last)));
+                        }
+                    }
+                    self.synack_times.push(e.t_us);
+                    if self.synack_times.len() > w.cfg.max_retx {
+                        v.push(f("C17", "handshake", "synack/repeated-beyond-the-cap", format!("SYN-ACK sent {} times, configured maximum {}", self.synack_times.len(), w.cfg.max_retx)));
+                    }
+                } else if e.hdr.ptype != 1 || state_after != "gone" {
+                    if self.synack_times.is_empty() {
+                        v.push(f(
+                            "C17",
+                            "handshake",
+                            "synack/first-emission-is-not-the-syn-ack",
+                            format!("an accepted connection's first emission is {} seq={} ack={} (expected ST_STATE acknowledging the SYN's sequence number {})", crate::duo::debug::type_name(e.hdr.ptype), e.hdr.seq, e.hdr.ack, w.cfg.peer_isn),
+                        ));
+                    }
+                }
+            }
+            if state_after != "syn-ack-sent" && state_after != "syn-received" {
+                self.established_seen = true;
+            }
+        } else if w.cfg.incoming {
+            // stops as soon as a packet acknowledging it arrived
+            for e in &rec.emitted {
+                if e.hdr.ptype == 2 && e.hdr.ack == w.cfg.peer_isn && e.hdr.seq == w.cfg.our_isn && !self.first_data_ever && w.peer_sent.is_empty() && !self.synack_times.is_empty() && state_before == "established" && rec.peer_sent.is_empty() && matches!(act, Some(Act::Tick)) {
+                    v.push(f("C17", "handshake", "synack/repeated-after-handshake-completed", format!("SYN-ACK repeated at {} us although the initiator's packet had arrived", e.t_us)));
+                }
+            }
+        }
+        if rec.emitted.iter().any(|e| e.hdr.ptype == 0) {
+            self.first_data_ever = true;
+        }
+        // R2: our own FIN
+        for e in rec.emitted.iter().filter(|e| e.hdr.ptype == 1) {
+            let expected = match self.tx_order.last() {
+                Some(s) => s.wrapping_add(1),
+                None => {
+                    // no data was ever sent: the FIN takes the first data sequence number
+                    if w.cfg.incoming { w.cfg.our_isn } else { w.cfg.our_isn.wrapping_add(1) }
+                }
+            };
+            let own_initiative = !self.fin_from_peer_seen && !self.reset_seen;
+            let died_with_error = matches!(rec.d_result, Some(Err(_)));
+            if e.hdr.seq != expected && !died_with_error {
+                v.push(f("C17", "teardown", "fin/wrong-sequence-number", format!("ST_FIN carries sequence number {}, the last data segment was {:?} (expected {})", e.hdr.seq, self.tx_order.last(), expected)));
+            }
+            if own_initiative && !died_with_error {
+                let transmitted: u64 = self.tx.values().map(|t| t.len as u64).sum();
+                if transmitted < w.written {
+                    v.push(f(
+                        "C17",
+                        "teardown",
+                        "fin/sent-before-all-accepted-data",
+                        format!("ST_FIN (own initiative) at {} us while only {} of the {} bytes accepted by write have ever been transmitted", e.t_us, transmitted, w.written),
+                    ));
+                }
+            }
+            if let Some(fs) = self.fin_seq {
+                if e.hdr.seq != fs {
+                    v.push(f("C17", "teardown", "fin/renumbered", format!("ST_FIN first carried sequence number {}, now {}", fs, e.hdr.seq)));
+                }
+            }
+        }
+        // R3: the peer's in-sequence FIN is acknowledged at once and answered by our own FIN
+        for (h, _, _) in &rec.peer_sent {
+            if h.ptype == 1 && !matches!(act, Some(Act::Deliver2(..))) {
+                let in_seq = matches!(w.peer_fin_idx, Some(fi) if fi == w.peer_in_order());
+                let receiving = state_before == "established" || state_before == "fin-wait-1" || state_before == "fin-wait-2";
+                if in_seq && receiving && w.done.is_none() || (in_seq && receiving && matches!(rec.d_result, Some(Ok(())))) {
+                    let acked = rec.emitted.iter().any(|e| e.hdr.ack == h.seq);
+                    if !acked && rec.rejected.is_empty() {
+                        v.push(f("C17", "teardown", "fin/peer-fin-not-acknowledged", format!("the peer's in-sequence ST_FIN (seq {}) was not acknowledged in the same instant (state before: {})", h.seq, state_before)));
+                    }
+                    let transmitted: u64 = self.tx.values().map(|t| t.len as u64).sum();
+                    let our_fin_out = self.fin_seq.is_some();
+                    if !our_fin_out && transmitted == w.written && rec.rejected.is_empty() {
+                        v.push(f("C17", "teardown", "fin/peer-fin-not-answered-with-own-fin", format!("the peer's in-sequence ST_FIN arrived in state {}; everything written had been transmitted, yet no ST_FIN of our own was emitted", state_before)));
+                    }
+                }
+            }
+        }
+        // R4: RESET: nothing further is emitted, and the halves see an error unless the close handshake was answered
+        if self.reset_seen {
+            let this_step_reset = rec.peer_sent.iter().any(|(h, _, _)| h.ptype == 3);
+            if !rec.emitted.is_empty() {
+                let after: Vec<&Emit> = rec.emitted.iter().collect();
+                // packets emitted in the same step BEFORE the reset was processed cannot be told apart here
+                // unless the reset was the only packet of the step
+                if rec.peer_sent.len() == 1 || !this_step_reset {
+                    v.push(f(
+                        "C17",
+                        "reset",
+                        "reset/reply-emitted-after-reset",
+                        format!("after ST_RESET the endpoint emitted {} ({} datagram(s))", crate::duo::debug::type_name(after[0].hdr.ptype), after.len()),
+                    ));
+                }
+            }
+            if this_step_reset && w.done.is_none() && state_before != "gone" {
+                v.push(f("C17", "reset", "reset/connection-survives-reset", "the connection future did not complete in the step that processed ST_RESET".to_string()));
+            }
+        }
+    }
+
+    // ------------------------------------------------------------------------------------------
+    // C18 Nagle, C19 send buffer / back-pressure
+    // ------------------------------------------------------------------------------------------
+    fn nagle_and_buffers(&mut self, rec: &StepRecord, w: &World, act: Option<&Act>, v: &mut Vec<Finding>) {
+        let Some(oa) = &rec.obs_after else { return };
+        let Some(ob) = &rec.obs_before else { return };
+        let limit = w.cfg.tx_init.max(w.cfg.tx_max) as u64;
+        if w.written.saturating_sub(self.cum_acked_bytes) > limit {
+            v.push(f(
+                "C19",
+                "tx-buffer-bound",
+                "txbuf/accepted-minus-acked-exceeds-limit",
+                format!("write accepted {} bytes, the peer has cumulatively acknowledged {}: {} unacknowledged > limit {}", w.written, self.cum_acked_bytes, w.written - self.cum_acked_bytes, limit),
+            ));
+        }
+        // first transmissions of this step, in order
+        let mss = ob.mss as usize;
+        for e in rec.emitted.iter().filter(|e| e.hdr.ptype == 0) {
+            let Some(t) = self.tx.get(&e.hdr.seq) else { continue };
+            if t.count != 1 || t.first_t != e.t_us {
+                continue;
+            }
+            if w.cfg.nagle {
+                // earlier data unacknowledged at the time of sending? (acks are processed before sends within a step)
+                let earlier_unacked = self.tx.iter().any(|(s, x)| sdist(e.hdr.seq, *s) > 0 && !x.acked);
+                // what it could have used: min(segment size, what the peer window left)
+                let outstanding_before: usize = self.tx.iter().filter(|(s, x)| sdist(e.hdr.seq, **s) > 0 && !x.acked).map(|(_, x)| x.len).sum();
+                let window_left = (self.peer_last_wnd as usize).saturating_sub(outstanding_before);
+                let could = mss.min(window_left);
+                let by_rto_timer = matches!(act, Some(Act::Tick) | Some(Act::Wait(_))) && ob.flight_size == 0;
+                if earlier_unacked && e.payload.len() < could && !by_rto_timer && self.fin_seq.is_none() {
+                    // a partial segment is legitimate if it is the last one cut before the writer added more? No:
+                    // Nagle holds a partial segment back while anything is unacknowledged.
+                    v.push(f(
+                        "C18",
+                        "nagle",
+                        "nagle/partial-segment-while-data-unacknowledged",
+                        format!("Nagle on: sequence number {} carries {} bytes (it could have used {}) while earlier data is still unacknowledged", e.hdr.seq, e.payload.len(), could),
+                    ));
+                }
+            }
+        }
+        // buffered bytes are sent when the pipe drains / (Nagle off) whenever the connection processes an event
+        let transmitted: u64 = self.tx.values().map(|t| t.len as u64).sum();
+        let unsent = w.written.saturating_sub(transmitted);
+        let sending_state = oa.state == "established" && ob.state == "established";
+        if unsent > 0 && rec.d_polls > 0 && sending_state && w.done.is_none() && rec.rejected.is_empty() && !self.fin_from_peer_seen && !matches!(act, Some(Act::TransportPendingOnce)) && oa.rto_retransmissions == 0 && oa.recovery_phase == 0 && !matches!(act, Some(Act::Deliver2(..))) {
+            let outstanding: usize = self.tx.values().filter(|t| !t.acked).map(|t| t.len).sum();
+            let next = (oa.mss as usize).min(unsent as usize);
+            let allowed = (oa.cwnd.min(self.peer_last_wnd as usize)).saturating_sub(outstanding);
+            let probe_outstanding = self.tx.values().any(|t| !t.acked && t.len > self.largest_payload_acked.max(self.protocol_min_payload()));
+            if !w.cfg.nagle {
+                // the data must have been in the ring when the connection ran: a write in this step that did
+                // not wake the connection is judged by the idle-write rule instead
+                let written_this_step: u64 = rec.app.iter().filter_map(|(who, r)| if *who == "write" { if let AppRes::Ok(n) = r { Some(*n as u64) } else { None } } else { None }).sum();
+                let unsent_before_step = unsent.saturating_sub(written_this_step);
+                if allowed >= next && unsent_before_step > 0 && !probe_outstanding {
+                    v.push(f(
+                        "C18",
+                        "nagle-off",
+                        "nagle-off/buffered-bytes-held-back",
+                        format!("Nagle off: after the connection processed an event {} accepted bytes are still unsent although window ({}) and congestion window ({}) leave room for {} more bytes ({} outstanding)", unsent, self.peer_last_wnd, oa.cwnd, allowed, outstanding),
+                    ));
+                }
+            } else if outstanding == 0 && self.peer_last_wnd as usize >= next && oa.cwnd >= next && !probe_outstanding {
+                let written_this_step: u64 = rec.app.iter().filter_map(|(who, r)| if *who == "write" { if let AppRes::Ok(n) = r { Some(*n as u64) } else { None } } else { None }).sum();
+                if unsent.saturating_sub(written_this_step) > 0 {
+                    v.push(f(
+                        "C18",
+                        "nagle",
+                        "nagle/pipe-drained-but-buffered-bytes-not-sent",
+                        format!("Nagle on: everything is acknowledged, {} buffered bytes remain unsent after the connection ran (window {}, cwnd {})", unsent, self.peer_last_wnd, oa.cwnd),
+                    ));
+                }
+            }
+        }
+    }
+
+    // ------------------------------------------------------------------------------------------
+    // C02 (wake-ups, no stall), C19 (writer woken when space is freed)
+    // ------------------------------------------------------------------------------------------
+    fn wakeups(&mut self, rec: &StepRecord, w: &World, act: Option<&Act>, v: &mut Vec<Finding>) {
+        let (Some(ob), Some(oa)) = (&rec.obs_before, &rec.obs_after) else {
+            // the connection is gone: nobody may stay parked on it
+            if w.done.is_some() {
+                if w.w_parked != Parked::No && w.writer.is_some() {
+                    v.push(f("C02", "wake-ups", "wake/writer-parked-on-dead-connection", format!("the connection ended ({:?}) but the writer is still parked in {:?} and its waker never fired", w.done, w.w_parked)));
+                }
+                if w.r_parked != Parked::No && w.reader.is_some() {
+                    v.push(f("C02", "wake-ups", "wake/reader-parked-on-dead-connection", format!("the connection ended ({:?}) but the reader is still parked and its waker never fired", w.done)));
+                }
+            }
+            return;
+        };
+        // a parked writer with free ring space / a parked reader with queued data, at quiescence
+        if let Parked::Write(_) = w.w_parked {
+            if oa.tx_ring_len < oa.tx_ring_cap && w.writer.is_some() {
+                v.push(f(
+                    "C19",
+                    "back-pressure",
+                    "wake/writer-not-woken-when-space-freed",
+                    format!("the writer is parked in poll_write although the TX ring has {} of {} bytes free and nothing woke it", oa.tx_ring_cap - oa.tx_ring_len, oa.tx_ring_cap),
+                ));
+            }
+        }
+        if let Parked::Read(_) = w.r_parked {
+            if oa.rx_queue_bytes > 0 && w.reader.is_some() {
+                v.push(f("C02", "wake-ups", "wake/reader-not-woken-with-data-queued", format!("the reader is parked in poll_read although {} bytes are queued for it", oa.rx_queue_bytes)));
+            }
+        }
+        if matches!(w.w_parked, Parked::Flush | Parked::Shutdown) && oa.tx_ring_len == 0 && w.w_parked == Parked::Flush {
+            v.push(f("C02", "wake-ups", "wake/flush-not-woken-when-ring-empty", "poll_flush is parked although the TX ring is empty".to_string()));
+        }
+        // immediacy on an idle connection
+        let idle_before = ob.state == "established" && ob.tx_ring_len == 0 && ob.flight_size == 0 && ob.tx_segments == 0 && !self.fin_from_peer_seen && ob.rto_retransmissions == 0;
+        if idle_before && rec.rejected.is_empty() {
+            match act {
+                Some(Act::Write(n)) if *n > 0 => {
+                    let accepted = rec.app.iter().any(|(who, r)| *who == "write" && matches!(r, AppRes::Ok(k) if *k > 0));
+                    let window_open = self.peer_last_wnd as usize >= (*n).min(ob.mss as usize) && ob.cwnd >= (*n).min(ob.mss as usize);
+                    if accepted && window_open && !rec.emitted.iter().any(|e| e.hdr.ptype == 0) {
+                        v.push(f(
+                            "C02",
+                            "promptness",
+                            "promptness/write-on-idle-connection-not-transmitted-at-once",
+                            format!("write of {} bytes on an idle connection (peer window {}, cwnd {}): no ST_DATA in the same instant (connection polled {} time(s))", n, self.peer_last_wnd, ob.cwnd, rec.d_polls),
+                        ));
+                    }
+                }
+                Some(Act::Shutdown) => {
+                    if !rec.emitted.iter().any(|e| e.hdr.ptype == 1) && w.done.is_none() {
+                        v.push(f(
+                            "C02",
+                            "promptness",
+                            "promptness/shutdown-on-idle-connection-fin-not-sent-at-once",
+                            format!("shutdown on an idle connection: no ST_FIN in the same instant (connection polled {} time(s))", rec.d_polls),
+                        ));
+                    }
+                }
+                Some(Act::DropWriter) | Some(Act::DropReader) => {
+                    if w.reader.is_none() && w.writer.is_none() && !rec.emitted.iter().any(|e| e.hdr.ptype == 1) && w.done.is_none() {
+                        v.push(f(
+                            "C02",
+                            "promptness",
+                            "promptness/drop-of-both-halves-fin-not-sent-at-once",
+                            format!("both halves dropped on an idle connection: no ST_FIN in the same instant (connection polled {} time(s))", rec.d_polls),
+                        ));
+                    }
+                }
+                _ => {}
+            }
+        }
+        // deadlock: accepted bytes neither sent nor acknowledged, windows open, nothing in flight and no timer armed
+        let transmitted: u64 = self.tx.values().map(|t| t.len as u64).sum();
+        let unsent = w.written.saturating_sub(transmitted);
+        if unsent > 0 && oa.state == "established" && w.done.is_none() && !self.fin_from_peer_seen && !w.d.is_set() {
+            let outstanding: usize = self.tx.values().filter(|t| !t.acked).map(|t| t.len).sum();
+            let next = (oa.mss as usize).min(unsent as usize);
+            let timers_off = oa.timers[0].is_none() && oa.timers[2].is_none() && oa.timers[3].is_none();
+            if outstanding == 0 && timers_off && self.peer_last_wnd as usize >= next && oa.cwnd >= next && rec.rejected.is_empty() && !matches!(act, Some(Act::TransportPendingOnce)) {
+                v.push(f(
+                    "C02",
+                    "stall",
+                    "stall/unsent-bytes-nothing-in-flight-no-timer",
+                    format!("{} accepted bytes are unsent, nothing is in flight, the peer window ({}) and cwnd ({}) allow a segment, no timer is armed and nothing woke the connection: only an incidental poll can move this", unsent, self.peer_last_wnd, oa.cwnd),
+                ));
+            }
+        }
+        // the peer could send, but was told a zero window while the buffer has room for a segment, and nothing is armed
+        if oa.state == "established" && w.done.is_none() && w.reader.is_some() && !w.d.is_set() {
+            let free = w.cfg.rx_buf.saturating_sub(oa.rx_queue_bytes + oa.rx_ooq_bytes);
+            if self.last_adv_wnd == 0 && free >= oa.mss as usize && oa.timers[2].is_none() && rec.rejected.is_empty() && !matches!(act, Some(Act::TransportPendingOnce)) && !matches!(act, Some(Act::Deliver2(..))) {
+                v.push(f(
+                    "C02",
+                    "stall",
+                    "stall/zero-window-advertised-with-free-buffer",
+                    format!("the last advertised window is 0 although {} bytes of the receive buffer are free (segment size {}); nothing woke the connection and no timer will", free, oa.mss),
                 ));
             }
         }
